@@ -62,11 +62,29 @@ let rec build (items : string list) : value * string list = match items with
        let (m, rest') = go n rest [] in (JMap m, rest')
      | _ -> failwith ("bad tree item " ^ it))
 
+let fresh_parser = { o_line = z_of_int 12345; o_err = None }
+
+(* toString then parse; [t0]: the tree the target of parse holds before the call *)
+let rt_line model t0 tr =
+  let (v, _) = build (String.split_on_char ',' tr) in
+  if model then begin
+    let tgt = (match t0 with Some t -> fst (build (String.split_on_char ',' t)) | None -> JNull) in
+    let text = to_string v in
+    let (_, r) = parse_with fresh_parser tgt (cstr text) in
+    let eq = (match r with POk w -> value_eq v w | _ -> false) in
+    match result_text r with
+    | Some s -> Printf.sprintf "%d | %s %s" (if eq then 1 else 0) (hexs text) s
+    | None -> "! oob"
+  end else
+    (* in the class: the flag is 1 and the tree read back is the canonical form of the tree *)
+    (if in_class v then "1 | ? ok " ^ String.concat " " (dump (canon v)) else "?")
+
 let () =
   let mode = Sys.argv.(1) and file = Sys.argv.(2) in
   let model = (mode = "model") in
   run_cases file (fun _ -> ())
     (fun () _ toks ->
+       let rt t0 tr = emit (rt_line model t0 tr) in
        (match toks with
         | ["parse"; h] ->
           if model then
@@ -86,20 +104,44 @@ let () =
              | Some v -> emit ("ok s" ^ hexs v)
              | None -> emit "??*")
         | ["strip"; h] ->
-          let s = cstr (bytes_of_hex h) in
-          emit (hexs (if model then strip_comments s else reference_strip s))
-        | ["rt"; tr] ->
-          let (v, _) = build (String.split_on_char ',' tr) in
+          (* the String with all its bytes; the model reads it as a C string and checks every access *)
+          let s = bytes_of_hex h in
+          if model then
+            (match strip_comments_chk s with
+             | Ok r -> if r = strip_comments s then emit (hexs r) else emit "checked-and-unchecked-machines-differ"
+             | OutOfBounds -> emit "! oob"
+             | _ -> emit "out-of-fuel")
+          else emit (hexs (reference_strip (cstr s)))
+        | ["rt"; tr] -> rt None tr
+        | ["rtinto"; t0; tr] -> rt (Some t0) tr
+        | ["parse2"; flag; h1; h2] ->
           if model then begin
-            let text = to_string v in
-            let r = parse (cstr text) in
-            let eq = (match r with POk w -> value_eq v w | _ -> false) in
+            let shared = (flag = "1") in
+            let s1 = cstr (bytes_of_hex h1) and s2 = cstr (bytes_of_hex h2) in
+            let o0 = fresh_parser in
+            let (o1, r1) = parse_with o0 JNull s1 in
+            let kept = (match r1 with POk v when shared -> v | _ -> JNull) in
+            let (_, r2) = parse_with o1 kept s2 in
+            match result_text r1, result_text r2 with
+            | Some a, Some b -> emit (Printf.sprintf "1 | %s | %s" a b)
+            | _ -> emit "! oob"
+          end else emit "1 | ??* | ??*"
+        | ["into"; t0; h] ->
+          if model then begin
+            let (tgt, _) = build (String.split_on_char ',' t0) in
+            let (_, r) = parse_with fresh_parser tgt (cstr (bytes_of_hex h)) in
             match result_text r with
-            | Some s -> emit (Printf.sprintf "%d | %s %s" (if eq then 1 else 0) (hexs text) s)
+            | Some a -> emit ("1 | " ^ a)
             | None -> emit "! oob"
-          end else
-            (* in the class: the flag is 1 and the tree read back is the canonical form of the tree *)
-            emit (if in_class v then "1 | ? ok " ^ String.concat " " (dump (canon v)) else "?")
+          end else emit "1 | ??*"
+        | ["sparse"; m; h] ->
+          if model then begin
+            let r = static_parse (z_of_int 12345) JNull (cstr (bytes_of_hex h)) in
+            match r with
+            | PErr (l, c, k) when m <> "p" ->
+              emit (Printf.sprintf "serr Syntax_error_at_line_%s,_column_%s:_%s" (dec_of_z l) (dec_of_z c) (msg_text k))
+            | _ -> (match result_text r with Some a -> emit a | None -> emit "! oob")
+          end else emit "??*"
         | ["chkpos"; h; l; c] ->
           if model then emit "-" else
           emit (if position_insideb (cstr (bytes_of_hex h)) (z_of_dec l) (z_of_dec c) then "1" else "0")
